@@ -47,6 +47,9 @@ pub struct IncCase {
     /// BB only: the first invocation's script is killed by a signal (never completes).
     #[serde(default)]
     pub kill_first: bool,
+    /// Declared directories also hold links to regular files kept outside the project.
+    #[serde(default)]
+    pub links: bool,
 }
 
 pub fn inc_case(neutral_only: bool) -> impl Strategy<Value = IncCase> {
@@ -54,11 +57,11 @@ pub fn inc_case(neutral_only: bool) -> impl Strategy<Value = IncCase> {
         (0u8..4, 0u8..14, any::<bool>(), any::<bool>(), any::<bool>(), any::<bool>()),
         (0u8..14, any::<bool>(), any::<bool>()),
         tree_spec(10, true),
-        prop::collection::vec((0u8..21, any::<u8>()), if neutral_only { 0..=4 } else { 1..=6 }),
-        (0u8..3, any::<bool>(), any::<bool>(), 0u8..8, 0u8..4),
+        prop::collection::vec((0u8..OPS.len() as u8, any::<u8>()), if neutral_only { 0..=4 } else { 1..=6 }),
+        (0u8..3, any::<bool>(), any::<bool>(), 0u8..8, 0u8..4, any::<bool>()),
     )
         .prop_map(
-            move |((layout, src_ext, second_files, own_cmd, out_paths, out_cmd), (prod_paths_ext, prod_paths, prod_cmd), tree, edits, (extra_invocations, also_dependency, second_producer, big_b, kill_b))| {
+            move |((layout, src_ext, second_files, own_cmd, out_paths, out_cmd), (prod_paths_ext, prod_paths, prod_cmd), tree, edits, (extra_invocations, also_dependency, second_producer, big_b, kill_b, links))| {
                 // links are excluded here (the model must be exact): keep files and dirs
                 let tree = TreeSpec {
                     entries: tree
@@ -90,6 +93,7 @@ pub fn inc_case(neutral_only: bool) -> impl Strategy<Value = IncCase> {
                     second_producer: second_producer && layout >= 2,
                     big_cmd: big_b == 0,
                     kill_first: kill_b == 0,
+                    links,
                 }
             },
         )
@@ -283,6 +287,14 @@ pub fn build_world(case: &IncCase, tag: &str) -> Result<World, String> {
     sb.write("proj/o.txt", b"output-1\n");
     sb.write("proj/out/result.bin", b"result\n");
     sb.write("proj/gen/a.rs", b"look-alike in the consumer's project\n");
+    if case.links {
+        // e.g. a header shared between projects and linked into the source directory
+        sb.write("outside/shared.rs", b"shared source 1\n");
+        sb.write("outside/shared2.rs", b"shared source, second version\n");
+        sb.write("outside/blob.bin", b"blob 1\n");
+        let _ = std::os::unix::fs::symlink("../../outside/shared.rs", sb.path("proj/src/linked.rs"));
+        let _ = std::os::unix::fs::symlink(sb.path("outside/blob.bin"), sb.path("proj/lib/linked.bin"));
+    }
     let prod_rel = match case.layout {
         0 => None,
         1 => Some("proj"),
@@ -404,7 +416,7 @@ fn bump_mtime(p: &Path, counter: &mut i64) {
     set_mtime(p, 1_900_000_000 + *counter, (*counter * 7919) % 1_000_000_000);
 }
 
-pub const OPS: [&str; 21] = [
+pub const OPS: [&str; 24] = [
     "overwrite-same-length",
     "overwrite-restore-mtime",
     "append",
@@ -426,9 +438,12 @@ pub const OPS: [&str; 21] = [
     "no-op",
     "touch-non-matching",
     "overwrite-older-mtime",
+    "rewrite-link-referent",
+    "repoint-link",
+    "touch-link-referent",
 ];
 /// Operations that never change a declared resource.
-pub const NEUTRAL_OPS: [u8; 6] = [4, 9, 12, 13, 18, 19];
+pub const NEUTRAL_OPS: [u8; 7] = [4, 9, 12, 13, 18, 19, 23];
 
 /// Applies one edit against the current tree; returns a label (None = not applicable here).
 pub fn apply_edit(w: &World, case: &IncCase, op: u8, sel: u8, counter: &mut i64) -> Option<String> {
@@ -630,6 +645,30 @@ pub fn apply_edit(w: &World, case: &IncCase, op: u8, sel: u8, counter: &mut i64)
                 }
             }
         }
+        "rewrite-link-referent" | "touch-link-referent" => {
+            // the declared entry is a link; the file it names changes (or is only touched)
+            let link = if sel % 2 == 0 { w.root.join("src/linked.rs") } else { w.root.join("lib/linked.bin") };
+            if !std::fs::symlink_metadata(&link).ok()?.file_type().is_symlink() {
+                return None;
+            }
+            let referent = std::fs::canonicalize(&link).ok()?;
+            if name == "rewrite-link-referent" {
+                std::fs::write(&referent, format!("rewritten behind the link {} {}\n", sel, counter)).ok()?;
+            }
+            bump_mtime(&referent, counter);
+        }
+        "repoint-link" => {
+            let link = w.root.join("src/linked.rs");
+            if !std::fs::symlink_metadata(&link).ok()?.file_type().is_symlink() {
+                return None;
+            }
+            let cur = std::fs::read_link(&link).ok()?;
+            let next = if cur.ends_with("shared.rs") { "../../outside/shared2.rs" } else { "../../outside/shared.rs" };
+            std::fs::remove_file(&link).ok()?;
+            std::os::unix::fs::symlink(next, &link).ok()?;
+            // the newly named file has another content and another modification time
+            bump_mtime(&std::fs::canonicalize(&link).ok()?, counter);
+        }
         "touch-non-matching" => {
             let p = w.root.join("data/unlisted.txt");
             std::fs::write(&p, format!("{}", sel)).ok()?;
@@ -666,6 +705,9 @@ pub fn eval_inc(case: &IncCase, which: &str) -> CaseResult {
     }
     if case.layout >= 2 && case.prod_paths {
         classes.push("same-relative-path-two-projects".into());
+    }
+    if case.links {
+        classes.push("links-to-outside-files".into());
     }
     let n_res = 1 + case.second_files as usize + case.own_cmd as usize + (case.layout > 0) as usize;
     let replay = |msg: &str, extra: Value| json!({"engine": format!("INC-{}", which), "case": serde_json::to_value(case).unwrap(), "message": msg, "detail": extra});
